@@ -25,11 +25,17 @@ R = Registry(
         "and coerce / link the value to its parent; propagate=True of the ORM instance/attribute/mapper event hooks "
         "registers the listener on a transitive-closure walk of the subclasses (and the walkers they use -- "
         "ClassManager.subclass_managers, Mapper.self_and_descendants, util.walk_subclasses -- re-feed / recurse on "
-        "every child), so the listeners ext.mutable installs at mapper_configured time reach every descendant class."
+        "every child), so the listeners ext.mutable installs at mapper_configured time reach every descendant class; "
+        "the set listener unlinks the outgoing value only once the incoming one can no longer be rejected (cls.coerce raises) and "
+        "never when value is oldvalue; the pickle listener files EVERY non-None value (falsy/empty containers included) and the "
+        "unpickle listener links every filed value; a builtin that consumes an iterable element by element (list.extend, dict.update, "
+        "set.update, set.difference_update) is followed by changed() on its exceptional exit as well; the once-only flag guarding the "
+        "installation of the listeners is keyed by the mapped class, not stored on the shared Core Column."
     ),
     not_decided=(
         "equality of stored and in-memory value after flush; MutableComposite attribute mapping; mutation "
-        "of nested values; spurious changed() when the builtin raises; an override that skips changed() on a path "
+        "of nested values; spurious changed() when the builtin raises before mutating; mutation of a STALE value object "
+        "that was already replaced (general ORM: committed_state keeps the old value by reference); an override that skips changed() on a path "
         "where the builtin ran but provably changed nothing (decided on pre-mutation state) is still reported -- "
         "only 'the builtin was not called on this path' is accepted as proof of no mutation."
     ),
@@ -821,6 +827,96 @@ def r6(ctx):
     ctx.check(not probs, key, "; ".join(probs), f"{len(loops)} loop(s) over the filed values, each iteration links", lf.loc)
 
 
+# ----------------------------------------------------------------------------- C49-R7: installation reaches every mapped class
+_INSTALL = ("associate_with_attribute", "_listen_on_attribute")
+_GROW = {"add", "append", "setdefault", "update", "__setitem__"}
+
+
+def _mapper_configured_hooks(ctx, m):
+    """(key, nested FunctionDef, enclosing FuncInfo) of the local functions registered with
+    `event.listen(Mapper, "mapper_configured", <fn>)` / `@event.listens_for(Mapper, "mapper_configured")` in ext/mutable.py"""
+    out = []
+    for f in ctx.index.all_functions(m):
+        nf = nested_functions(f.node)
+        for c in calls_in(f.node):
+            if call_name(c) == "event.listen" and len(c.args) >= 3 and const_str(c.args[1]) == "mapper_configured" \
+                    and isinstance(c.args[2], ast.Name) and c.args[2].id in nf:
+                fn = nf[c.args[2].id]
+                if not any(fn is x[1] for x in out):
+                    out.append((f"{f.key}.{fn.name}", fn, f))
+    return out
+
+
+def _flag_reads(test):
+    """(receiver expr, key expr) of the look-ups a branch test makes: `R.get(K, ..)`, `R[K]`, `K in R`"""
+    out = []
+    for n in ast.walk(test):
+        if isinstance(n, ast.Call) and isinstance(n.func, ast.Attribute) and n.func.attr == "get" and n.args:
+            out.append((n.func.value, n.args[0]))
+        elif isinstance(n, ast.Subscript):
+            out.append((n.value, n.slice))
+        elif isinstance(n, ast.Compare) and len(n.ops) == 1 and isinstance(n.ops[0], (ast.In, ast.NotIn)):
+            out.append((n.comparators[0], n.left))
+    return out
+
+
+def _stores_into(fn, env):
+    """(receiver, key) -- unparsed, locals expanded -- of the slots the function writes: `R[K] = v`, `R.add(K)`, `R.setdefault(K, ..)`"""
+    out = set()
+    for d, sub_, st in subscript_stores(fn):
+        out.add((unparse(expand(sub_.value, env)), unparse(expand(sub_.slice, env))))
+    for c in calls_in(fn):
+        if isinstance(c.func, ast.Attribute) and c.func.attr in _GROW and c.args:
+            out.add((unparse(expand(c.func.value, env)), unparse(expand(c.args[0], env))))
+    return out
+
+
+@R.rule("C49-R7", floor=3, template="T-KEY",
+        desc="the mapper_configured hooks of ext.mutable install the change-tracking listeners for EVERY mapped class that has a "
+             "matching attribute: a once-only flag that guards `associate_with_attribute(getattr(class_, prop.key))` has to be "
+             "keyed by the mapped class / mapper it was applied for -- a flag stored on the Core Column (prop.expression.info, "
+             "prop.columns[0].info), which all mappers of the same Table share, switches tracking off for every class but the first")
+def r7(ctx):
+    m = ctx.index.module(MUT)
+    shared = set(load("orm_shared_core_accessors.json")["shared"])
+    hooks = _mapper_configured_hooks(ctx, m)
+    ctx.require(len(hooks) >= 2, f"only {len(hooks)} mapper_configured hooks found in {MUT}")
+    for key, fn, outer in hooks:
+        ctx.functions_analysed.add(outer.key)
+        ps = [a.arg for a in fn.args.args]
+        ctx.require(len(ps) >= 2, f"{key}: hook signature not understood")
+        per_class = set(ps[:2])          # (mapper, class_)
+        g = ctx.cfg(fn)
+        env = single_defs(fn)
+        installs = [c for c in calls_in(fn) if (call_name(c) or "").split(".")[-1] in _INSTALL]
+        ctx.require(installs, f"{key}: no call of associate_with_attribute() / _listen_on_attribute() in the hook")
+        written = _stores_into(fn, env)
+        probs, flags = [], []
+        for c in installs:
+            for nid in g.nodes_containing(c)[:1]:
+                for t, pol in g.edge_guards(nid):
+                    te = expand(t, env)
+                    for recv, k in _flag_reads(te):
+                        rtxt = unparse(recv)
+                        if (rtxt, unparse(k)) not in written:
+                            continue                                   # a pure test (type match), not a test-and-set flag
+                        names = {n.id for x in (recv, k) for n in ast.walk(x) if isinstance(n, ast.Name)}
+                        attrs = [n.attr for n in ast.walk(recv) if isinstance(n, ast.Attribute)]
+                        flags.append(rtxt)
+                        if names & per_class:
+                            continue                                   # keyed by the mapper / class it was applied for
+                        hit = [a for a in attrs if a in shared]
+                        ctx.require(hit, f"{key}: storage of the once-only flag `{rtxt}[{unparse(k)}]` not understood")
+                        probs.append(f"the once-only flag `{rtxt}[{unparse(k)}]` lives on the Core object reached through `.{hit[0]}` "
+                                     f"(the Table's Column: shared by every mapper of that Table) and is not keyed by "
+                                     f"{' / '.join(sorted(per_class))}: the first mapped class sets it, a second class mapped to the same "
+                                     f"Table (imperative mapping, or a re-mapping after clear_mappers()) finds it set and gets no "
+                                     f"load/refresh/set/pickle/unpickle listeners -- its values are not coerced, in-place changes never "
+                                     f"flag the parent and are never flushed")
+        ctx.check(not probs, f"{key}:installs-for-every-class", "; ".join(sorted(set(probs))),
+                  "no once-only flag" if not flags else f"flag keyed per class: {sorted(set(flags))}", outer.loc)
+
+
 # ----------------------------------------------------------------------------- C49-R5: propagate reaches ALL descendants
 EVENTS_MOD = "orm/events.py"
 REFEED = {"extend", "append", "extendleft", "appendleft", "update", "add"}
@@ -1472,3 +1568,31 @@ R.mutant("benign-list-iadd-calls-builtin-changed-in-finally", MUT,
          sub(_IADD, "        try:\n            list.__iadd__(self, x)\n        finally:\n            self.changed()\n        return self\n"), None)
 R.mutant("benign-list-iadd-materialises-argument", MUT,
          sub(_IADD, "        items = list(x)\n        list.__iadd__(self, items)\n        self.changed()\n        return self\n"), None)
+
+# C49-R7 (seed-agent observation, round 2): the once-only flag of as_mutable().  The tree carries the per-Column flag (finding);
+# these are the spellings a repair may take / must not take.
+_FLAG = ("                    if not prop.expression.info.get(_APPLIED_KEY, False):\n"
+         "                        prop.expression.info[_APPLIED_KEY] = True\n"
+         "                        cls.associate_with_attribute(getattr(class_, prop.key))\n")
+R.mutant("benign-as-mutable-flag-keyed-by-class", MUT, sub(
+    _FLAG,
+    "                    applied = prop.expression.info.setdefault(_APPLIED_KEY, set())\n"
+    "                    if class_ not in applied:\n"
+    "                        applied.add(class_)\n"
+    "                        cls.associate_with_attribute(getattr(class_, prop.key))\n"), None)
+R.mutant("benign-as-mutable-skips-inherited-attributes-only", MUT, sub(
+    _FLAG,
+    "                    if mapper.inherits is not None and mapper.inherits.has_property(prop.key):\n"
+    "                        continue\n"
+    "                    cls.associate_with_attribute(getattr(class_, prop.key))\n"), None)
+R.mutant("associate-with-gets-per-column-flag", MUT, sub(
+    "                if isinstance(prop.columns[0].type, sqltype):\n                    cls.associate_with_attribute(getattr(class_, prop.key))\n",
+    "                if isinstance(prop.columns[0].type, sqltype):\n                    info = prop.columns[0].info\n"
+    "                    if \"_ext_mutable_seen\" in info:\n                        continue\n"
+    "                    info[\"_ext_mutable_seen\"] = True\n"
+    "                    cls.associate_with_attribute(getattr(class_, prop.key))\n"), "C49-R7")
+R.mutant("composite-listener-gets-flag-on-the-composite-columns", MUT, sub(
+    "                prop.composite_class._listen_on_attribute(\n                    getattr(class_, prop.key), False, class_\n                )\n",
+    "                seen = prop.columns[0].info\n                if seen.get(\"_ext_mutable_composite\"):\n                    continue\n"
+    "                seen[\"_ext_mutable_composite\"] = True\n"
+    "                prop.composite_class._listen_on_attribute(\n                    getattr(class_, prop.key), False, class_\n                )\n"), "C49-R7")
